@@ -34,11 +34,11 @@ CLAIMS = {
    technique="call-graph SCC analysis with ranking-function recognition, must-dataflow pairing rules (defer/close/recover), finite-domain evaluation of the literal cap, taint of wire-sourced integer fields into slice bounds",
    design="§4 C06"),
  "C08": dict(
-   text="Structural clauses of view consistency: Conn.writeExpunge unreachable from the FETCH/STORE/SEARCH handlers through every Session implementation of the module (call graph VTA + CHA for module interfaces); Conn.poll's permission evaluated for all 36 dispatched labels (false exactly for FETCH/STORE/SEARCH) and consistent between backend and update writer, polled with the dispatched name; message-list mutations paired with the tracker update under the mailbox lock; one delivery channel per expunge for every session method; complete fan-out in the tracker; FETCH responses of the backend carry EncodeSeqNum's result tested non-zero. 'other': necessary conditions; that the sequence numbers themselves are right is C07's value-level arithmetic and is not decided.",
+   text="Structural clauses of view consistency: Conn.writeExpunge unreachable from the FETCH/STORE/SEARCH handlers through every Session implementation of the module (call graph VTA + CHA for module interfaces); Conn.poll's permission evaluated for all 36 dispatched labels (false exactly for FETCH/STORE/SEARCH) and consistent between backend and update writer, polled with the dispatched name; message-list mutations paired with the tracker update under the mailbox lock; one delivery channel per expunge for every session method; complete fan-out in the tracker; FETCH responses of the backend carry EncodeSeqNum's result tested non-zero; a session registers with the mailbox tracker under the mailbox lock in the critical section that takes its EXISTS snapshot; the tracker queue is append-only while EncodeSeqNum matches queued counts by equality. 'other': necessary conditions; that the sequence numbers themselves are right is C07's value-level arithmetic and is not decided.",
    technique="absence-of-reachability over the module call graph, exhaustive finite-domain evaluation of poll, pairing and control-dependence rules over go/ssa",
    design="§4 C08"),
  "C09": dict(
-   text="Structural clauses of the in-memory backend's mailbox semantics: UID allocation (uidNext written only by the constructor and a locked increment-by-one in appendBytes; the new message gets the pre-increment value); UIDVALIDITY (prevUidValidity only incremented, in Create, and handed to NewMailbox); every flag-map lookup/insert/delete keyed through canonicalFlag (8 sites); wire-supplied integers compared with a length before being used as slice bounds and never summed unguarded. 'other': necessary conditions only; agreement of SEARCH/FETCH/LIST/STATUS results with a reference model is value-level and not decided.",
+   text="Structural clauses of the in-memory backend's mailbox semantics: UID allocation (uidNext written only by the constructor and a locked increment-by-one in appendBytes; the new message gets the pre-increment value); UIDVALIDITY (prevUidValidity only incremented, in Create, and handed to NewMailbox); every flag-map lookup/insert/delete keyed through canonicalFlag (8 sites); wire-supplied integers compared with a length before being used as slice bounds and never summed unguarded; the key inserted into User.mailboxes is the value whose absence was checked and the mailbox's own name. 'other': necessary conditions only; agreement of SEARCH/FETCH/LIST/STATUS results with a reference model is value-level and not decided.",
    technique="who-may-write and value-shape rules over go/ssa, lockset facts from the lock analysis, wire-integer taint",
    design="§4 C09"),
  "C10": dict(
@@ -46,11 +46,11 @@ CLAIMS = {
    technique="must-dataflow over go/ssa (deferred teardown, exit coverage, completion counting), type-directed exhaustiveness of channel closing",
    design="§4 C10"),
  "C11": dict(
-   text="Structural clauses of client robustness: every input-driven recursion cycle of the client's call graph is depth-bounded (Decoder.List's checked guard or a capped strictly increasing counter proven around every cycle); numbers read from the wire reach result sets only after a non-zero test; every parsed number set is refused when dynamic; the reader goroutine recovers and tears down; enumeration loops over unsigned ranges cannot wrap at 2^32-1. 'other': necessary conditions over all cycles/sites; absence of every other panic in accessors and super-linear cost are not decided.",
+   text="Structural clauses of client robustness: every input-driven recursion cycle of the client's call graph is depth-bounded (Decoder.List's checked guard or a capped strictly increasing counter proven around every cycle); numbers read from the wire reach result sets only after a non-zero test; every parsed number set is refused when dynamic; the reader goroutine recovers and tears down; enumeration loops over unsigned ranges cannot wrap at 2^32-1; nil-able command fields are dereferenced in reader-run code only after a non-nil test (their own or the selecting matcher's); numbers parsed from the wire are never narrowed below their parse width. 'other': necessary conditions over all cycles/sites; absence of every other panic in accessors and super-linear cost are not decided.",
    technique="call-graph SCC analysis with ranking-function recognition, wire-value taint with dominating-test rules over go/ssa, loop-shape (integer wrap) rule",
    design="§4 C11"),
  "C12": dict(
-   text="Structural clauses of routing and mirrored state: mirror agreement of the mailbox summary across SelectedMailbox / SelectData / UnilateralDataMailbox (same value → same-named fields, incl. view-to-view copies); every write of the client's connection state classified as an RFC 9051 transition (success edge of the right command types via type-switch reachability, greeting per status type, [CLOSED], teardown); response→command routing table extracted from the dispatch switches, generic instantiations and type assertions and compared with the RFC table (23 routes); removal-from-pending paired with exactly one completion; capability invalidation only on success. 'other': necessary conditions; full transcript-vs-reference equality is not decided.",
+   text="Structural clauses of routing and mirrored state: mirror agreement of the mailbox summary across SelectedMailbox / SelectData / UnilateralDataMailbox (same value → same-named fields, incl. view-to-view copies); every write of the client's connection state classified as an RFC 9051 transition (success edge of the right command types via type-switch reachability, greeting per status type, [CLOSED], teardown); response→command routing table extracted from the dispatch switches, generic instantiations and type assertions and compared with the RFC table (23 routes); removal-from-pending paired with exactly one completion; capability invalidation only on success; keyed response matchers accept a command only on a positive relation to the response; the guards of the mailbox-summary mirror hold for every conformant response (evaluated over all orderings of count and number); command identity is compared on one representation per command (dynamic-type flow). 'other': necessary conditions; full transcript-vs-reference equality is not decided.",
    technique="value-identity (mirror) dataflow, typed-AST table extraction, must-facts and type-switch reachability over go/ssa",
    design="§4 C12"),
  "C13": dict(
@@ -62,11 +62,11 @@ CLAIMS = {
    technique="interprocedural lockset and lock-order analysis over go/ssa + VTA/CHA call graph, with higher-order (callback) summaries",
    design="§4 C14"),
  "C15": dict(
-   text="Structural clauses of the number-set types: no `n <= bound; n++` enumeration loop over an unsigned variable with a run-time bound can wrap at the type's maximum; every unsafe.Pointer cast between the public SeqSet/UIDSet/SeqRange/UIDRange/[]UID types and the internal imapnum ones is between layout-identical types (field names in order, offsets, sizes under the target's types.Sizes; 6 casts); every public set method delegates to the same-named internal method with its parameters in order (14 methods). 'other': preconditions of the set behaviour; the set algebra, canonical form and parse/print laws are value-level and not decided.",
+   text="Structural clauses of the number-set types: no `n <= bound; n++` enumeration loop over an unsigned variable with a run-time bound can wrap at the type's maximum and no loop limit is an unsigned sum bound+k; every unsafe.Pointer cast between the public SeqSet/UIDSet/SeqRange/UIDRange/[]UID types and the internal imapnum ones is between layout-identical types (field names in order, offsets, sizes under the target's types.Sizes; 6 casts); every public set method delegates to the same-named internal method with its parameters in order, unconditionally except for the SearchRes marker (14 methods). 'other': preconditions of the set behaviour; the set algebra, canonical form and parse/print laws are value-level and not decided.",
    technique="type-layout comparison with go/types Sizes, loop-shape (integer wrap) rule and argument-provenance rule over go/ssa",
    design="§4 C15"),
  "C16": dict(
-   text="Only the chunking clauses of the modified UTF-7 transformers are decided: ErrShortSrc on a non-final chunk that ends inside a unit, a destination-space check (returning ErrShortDst) before every write into dst, and nSrc advanced only after that check — for both Transform methods. These are the structural necessary conditions of 'regardless of how the transformer's buffers are chunked'. 'other' and deliberately narrow: losslessness, the decoder's rejection set, valid-UTF-8-only output and panic-freedom of the base64/UTF-16 arithmetic are value-level and NOT decided.",
+   text="Only the chunking clauses of the modified UTF-7 transformers are decided: ErrShortSrc on a non-final chunk that ends inside a unit, a destination-space check (returning ErrShortDst) before every write into dst, and nSrc advanced only after that check — for both Transform methods; plus sibling agreement: every comparison against utf7.min/utf7.max in encoder and decoder denotes the same closed interval. These are the structural necessary conditions of 'regardless of how the transformer's buffers are chunked'. 'other' and deliberately narrow: losslessness, the decoder's rejection set, valid-UTF-8-only output and panic-freedom of the base64/UTF-16 arithmetic are value-level and NOT decided.",
    technique="typed-AST ordering rules (check-before-write, check-before-advance) on the transform.Transformer implementations",
    design="§4 C16"),
  "C17": dict(
